@@ -9,6 +9,10 @@ package main
 //   assetsSetTokenGuards   the conditions under which SetStakingAssetInfo returns an error, and MaxDecimal
 //   assetsValidateOrder    the checks GenesisState.Validate runs, in order
 //   assetsValidateChecks   per Validate* function: the messages of its ErrInvalidGenesisData rejections, in source order
+//   assetsValidateNativeExempt  the "unknown assetID for operator assets" rejection of ValidateOperatorAssets excepts
+//                          ExocoreAssetID and the total comparison is guarded by the token's presence (F-18j repair)
+//   oracleEmptyStakerListDeleted / oracleStakerIndexShifted  UpdateNSTValidatorListForStaker deletes the list entry when the
+//                          list becomes empty / rewrites StakerIndex of the stakers behind the removed one (F-18m / F-18n repairs)
 //   genesisStateFields     the fields of the GenesisState message of exomint / feedistribution / oracle (genesis.pb.go)
 //   feedistributionStoreKeys  the key prefixes x/feedistribution declares (what its store can hold)
 //   oracleKeyPrefixes      the key prefixes x/oracle declares in types/key*.go
@@ -383,6 +387,34 @@ func genesisModsGen(repo string, emit func(name, leanDef string, err error)) {
 			}
 			checks = append(checks, fmt.Sprintf("(%q, %s)", fn, leanStrList(wrapfMessages(fd))))
 		}
+		// F-18j repair
+		if fd := findFunc(g, "GenesisState.ValidateOperatorAssets"); fd != nil {
+			exempt, guarded := false, false
+			ast.Inspect(fd.Body, func(n ast.Node) bool {
+				is, ok := n.(*ast.IfStmt)
+				if !ok {
+					return true
+				}
+				cond := goSrc(is.Cond)
+				msgs := ""
+				ast.Inspect(is.Body, func(m ast.Node) bool {
+					if bl, ok := m.(*ast.BasicLit); ok {
+						msgs += bl.Value
+					}
+					return true
+				})
+				if strings.Contains(msgs, "unknown assetID for operator assets") && cond == "!ok && asset.AssetID != ExocoreAssetID" {
+					exempt = true
+				}
+				if strings.Contains(msgs, "operator's sum amount exceeds") && strings.HasPrefix(cond, "ok && ") {
+					guarded = true
+				}
+				return true
+			})
+			emit("assetsValidateNativeExempt", "/-- x/assets ValidateOperatorAssets accepts a pool of ExocoreAssetID without a token entry and compares with the token's total only when the entry exists -/\ndef assetsValidateNativeExempt : Bool := "+fmt.Sprint(exempt && guarded), nil)
+		} else {
+			fail(fmt.Errorf("ValidateOperatorAssets not found"), "assetsValidateNativeExempt")
+		}
 		emit("assetsValidateChecks", "/-- x/assets: the rejections of each Validate* function (messages of its ErrInvalidGenesisData errors), in source order -/\ndef assetsValidateChecks : List (String × List String) := [\n  "+strings.Join(checks, ",\n  ")+"]", nil)
 	}()
 	// ---------------------------------------------------------------- genesis messages of mint / feedistribution / oracle
@@ -561,6 +593,50 @@ func genesisModsGen(repo string, emit func(name, leanDef string, err error)) {
 				return true
 			})
 			emit("oracleStakerListExportsFullKey", "/-- x/oracle GetAllStakerListAssets exports iterator.Key() of an iterator over the un-prefixed module store as asset id -/\ndef oracleStakerListExportsFullKey : Bool := "+fmt.Sprint(keyAsID && !prefixStore), nil)
+		}()
+		// F-18m / F-18n repairs in UpdateNSTValidatorListForStaker
+		func() {
+			f, err := parse("x/oracle/keeper/native_token.go")
+			if err != nil {
+				fail(err, "oracleEmptyStakerListDeleted", "oracleStakerIndexShifted")
+				return
+			}
+			fd := findFunc(f, "Keeper.UpdateNSTValidatorListForStaker")
+			if fd == nil {
+				fail(fmt.Errorf("UpdateNSTValidatorListForStaker not found"), "oracleEmptyStakerListDeleted", "oracleStakerIndexShifted")
+				return
+			}
+			deleted, shifted := false, false
+			ast.Inspect(fd.Body, func(n ast.Node) bool {
+				switch e := n.(type) {
+				case *ast.IfStmt:
+					if goSrc(e.Cond) == "len(stakerList.StakerAddrs) == 0" {
+						ast.Inspect(e.Body, func(m ast.Node) bool {
+							if c, ok := m.(*ast.CallExpr); ok && goSrc(c) == "store.Delete(keyStakerList)" {
+								deleted = true
+							}
+							return true
+						})
+					}
+				case *ast.ForStmt:
+					if e.Init != nil && goSrc(e.Init) == "i := idx" && e.Cond != nil && goSrc(e.Cond) == "i < len(stakerList.StakerAddrs)" {
+						assigns, stores := false, false
+						ast.Inspect(e.Body, func(m ast.Node) bool {
+							if as, ok := m.(*ast.AssignStmt); ok && len(as.Lhs) == 1 && strings.HasSuffix(goSrc(as.Lhs[0]), ".StakerIndex") && goSrc(as.Rhs[0]) == "int64(i)" {
+								assigns = true
+							}
+							if c, ok := m.(*ast.CallExpr); ok && goSrc(c.Fun) == "store.Set" {
+								stores = true
+							}
+							return true
+						})
+						shifted = assigns && stores
+					}
+				}
+				return true
+			})
+			emit("oracleEmptyStakerListDeleted", "/-- x/oracle UpdateNSTValidatorListForStaker deletes the staker list entry when its last staker is removed -/\ndef oracleEmptyStakerListDeleted : Bool := "+fmt.Sprint(deleted), nil)
+			emit("oracleStakerIndexShifted", "/-- x/oracle UpdateNSTValidatorListForStaker rewrites the StakerIndex of the stakers behind a removed one -/\ndef oracleStakerIndexShifted : Bool := "+fmt.Sprint(shifted), nil)
 		}()
 		emit("oracleCollectionPrefixes", "/-- x/oracle: (exporter, setter, key prefix the exporter reads, key prefix the setter writes) -/\ndef oracleCollectionPrefixes : List (String × String × String × String) := [\n  "+strings.Join(items, ",\n  ")+"]", nil)
 	}()
